@@ -151,7 +151,7 @@ func callSer(k int64, built []regd, ser, route string, data []byte, ctx any, cb 
 			cb = false
 		}
 	}
-	return hx.C("OCallSer", k, ser, bytesOf(route), packBytes(data), []any{}, ctx, cb, beh)
+	return hx.C("OCallSer", k, ser, bytesOf(route), bytesOf(string(data)), []any{}, ctx, cb, beh)
 }
 
 func callDirect(k int64, built []regd, route string, arg any, ctx any, cb bool, beh string, allowF4 bool) hx.T {
@@ -582,7 +582,7 @@ func dispatch(built map[int64][]regd, ks []int64, rid int64, route string, body 
 			rid = 0
 		}
 	}
-	return hx.C("ODispatch", ks, rid, bytesOf(route), packBytes(body), []any{}, false, hx.C("CTyp", int64(9)), beh)
+	return hx.C("ODispatch", ks, rid, bytesOf(route), bytesOf(string(body)), []any{}, false, hx.C("CTyp", int64(9)), beh)
 }
 
 type dispCfg struct {
